@@ -429,6 +429,13 @@ def _arr(tr, v) -> Loc:
 @model("<Vec as Index>::index", "<Vec as IndexMut>::index_mut", "<slice as Index>::index",
        doc="Vec indexing: asserts idx < len (Rust panics otherwise), returns a reference to the element")
 def m_vec_index(tr, c):
+    ixv = c.args[1]
+    if isinstance(ixv, VAgg) or (isinstance(ixv, VLoc) and ixv.loc.node.kind == "struct"):
+        # indexing by a range value yields a sub-slice, not an element
+        fn = str(getattr(c, "func", ""))
+        if "RangeFrom" in fn:
+            return REG.lookup("<Vec as Index<RangeFrom>>::index")(tr, c)
+        raise TranslateError(f"slice indexing by this range type is not modelled ({fn[:80]})")
     a = _arr(tr, c.args[0])
     i = tr.as_scalar(c.args[1])
     ix = tr.tmp("usize", "ix")
@@ -1253,3 +1260,4 @@ def install(tr: Translator):
     revm_models.install(tr)
     import models3
     models3.install(tr)
+    models3.install3(tr)
